@@ -175,6 +175,17 @@ func longFieldsFile(h fitmodel.Header, n int, stringLast bool) []byte {
 	return buildFile(h, recs...)
 }
 
+// unknownTailFile: every record (file_id included) ends in a field the profile does not list.
+func unknownTailFile(h fitmodel.Header) []byte {
+	fid := fitmodel.Def{Local: 0, Global: 0, Fields: []fitmodel.FieldDef{{Num: 0, Size: 1, Base: fitmodel.Enum}, {Num: 200, Size: 3, Base: fitmodel.Byte}}}
+	rec := fitmodel.Def{Local: 1, Big: true, Global: 20, Fields: []fitmodel.FieldDef{{Num: 253, Size: 4, Base: fitmodel.Uint32}, {Num: 3, Size: 1, Base: fitmodel.Uint8}, {Num: 201, Size: 4, Base: fitmodel.Uint32}}}
+	recs := [][]byte{fid.Bytes(), fitmodel.Data(0, []byte{4, 9, 8, 7}), rec.Bytes()}
+	for i := 0; i < 3; i++ {
+		recs = append(recs, fitmodel.Data(1, fitmodel.Concat(fitmodel.PutUint(binary.BigEndian, 4, uint64(1000000000+i)), []byte{byte(70 + i)}, []byte{1, 2, 3, byte(i)})))
+	}
+	return buildFile(h, recs...)
+}
+
 func chain(name string, members ...[]byte) namedStream {
 	return namedStream{Name: name, B: fitmodel.Concat(members...), Members: members}
 }
@@ -204,6 +215,7 @@ var (
 	sChainState  = chain("chain(activity-3rec,monitoring-stateful)", sAct3.B, sMonState.B)
 	sChainState3 = chain("chain(monitoring-stateful,activity-3rec-be,monitoring-stateful)", sMonState.B, sAct3BE.B, sMonState.B)
 	sChainZero   = chain("chain(zero-size-fields,min12)", sZero.B, sMin12.B)
+	sUnkTail     = single("records-ending-in-unlisted-fields", unknownTailFile(hdr14()))
 	sLongFields  = single("device_info-200-byte-strings-x28", longFieldsFile(hdr14(), 28, false))
 	sLongFieldsL = single("device_info-200-byte-strings-last-x28", longFieldsFile(hdr12(), 28, true))
 )
